@@ -101,6 +101,40 @@ def gen_padded_struct(rng):
     after = nl('z')
     lines.append('%s:\tdc.b\t1' % after)
     exp[after.upper()] = base + total
+    # labels in front of statements that get alignment padding, outside and inside a PHASE region: a label reads load address + offset
+    pc = base + total + 1
+    off = 0
+    if rng.random() < 0.6:
+        tgt = rng.choice([0x20000, 0x8000, 0x123456])
+        lines.append('\tphase\t$%x' % tgt)
+        off = tgt - pc
+    for _ in range(rng.randrange(2, 7)):
+        pl = nl('p')
+        r = rng.random()
+        if r < 0.4:
+            n = rng.choice([1, 1, 3, 2])
+            lines.append('%s:\tdc.b\t%s' % (pl, ','.join('1' for _ in range(n))))
+            exp[pl.upper()] = pc + off
+            pc += n
+        elif r < 0.8:
+            pc += (pc + off) & 1         # alignment looks at the address the code will run at
+            if rng.random() < 0.5:
+                lines.append('%s:' % pl)
+                lines.append('\tdc.w\t2')
+            else:
+                lines.append('%s:\tdc.w\t2' % pl)
+            exp[pl.upper()] = pc + off
+            pc += 2
+        else:
+            pc += (pc + off) & 1         # alignment looks at the address the code will run at
+            lines.append('%s:\tds.l\t1' % pl)
+            exp[pl.upper()] = pc + off
+            pc += 4
+    if off:
+        lines.append('\tdephase')
+    last = nl('q')
+    lines.append('%s:\tdc.b\t9' % last)
+    exp[last.upper()] = pc
     return '\n'.join(lines) + '\n', exp
 
 
@@ -301,6 +335,11 @@ def gen(rng):
                 m.pc[m.seg] = rng.randrange(lo, max(lo + 1, min(hi - 8, lo + 0x300)))
                 add('\torg\t%d' % m.pc[m.seg])
             kinds.append('restore')
+        elif k == 14 and not any_phase and m.seg != 'code' and 'code' in m.pc and m.cpu != '16c84' and rng.random() < 0.5:
+            # a CPU statement naming the processor that is selected already: still "switches back to the CODE segment"
+            add('\tcpu\t%s' % m.cpu)
+            m.seg = 'code'
+            kinds.append('cpu-same')
         elif k == 14 and m.cpu in SWITCH and not any_phase and (m.seg == 'code' or m.save):
             # the other family shares only the CODE segment; the CPU statement itself selects CODE
             new = rng.choice(SWITCH[m.cpu])
